@@ -27,13 +27,16 @@ var phiOrders = func() map[string][]string {
 	return m
 }()
 
+// a block is identified by its rank among the blocks of the function that have phis (loop headers and merges)
 func phiOrderKey(fn *ssa.Function, h *ssa.BasicBlock) string {
 	k := 0
-	for _, x := range loopHeaders(fn) {
+	for _, x := range fn.Blocks {
 		if x == h {
 			break
 		}
-		k++
+		if len(headerPhis(x)) > 0 {
+			k++
+		}
 	}
 	return relName(fn.String()) + "#" + fmt.Sprint(k)
 }
@@ -94,6 +97,31 @@ func phiNameFor(fn *ssa.Function, phi *ssa.Phi) string {
 	return phi.Comment
 }
 
+// refParamName: the recorded name of parameter i of fn, when fn has the recorded number of parameters with
+// the recorded kinds; otherwise the current name.
+func refParamName(fn *ssa.Function, i int) string {
+	cur := fn.Params[i].Name()
+	ref, ok := phiOrders["params:"+relName(fn.String())]
+	if !ok || len(ref) != len(fn.Params) {
+		return cur
+	}
+	names := map[string]bool{}
+	for _, p := range fn.Params {
+		names[p.Name()] = true
+	}
+	for k, p := range fn.Params {
+		name, kind, _ := strings.Cut(ref[k], ":")
+		if kind != kindOfType(p.Type()) {
+			return cur
+		}
+		if name != p.Name() && names[name] {
+			return cur // the recorded name now belongs to another parameter
+		}
+	}
+	name, _, _ := strings.Cut(ref[i], ":")
+	return name
+}
+
 func init() { register("PHIORDERS", "other", runPhiOrders) }
 
 // runPhiOrders writes checker/phiorders.json for the tree under analysis (maintenance command, not a check).
@@ -104,7 +132,14 @@ func runPhiOrders(c *Ctx) {
 		if fn.Blocks == nil || !p.IsModFn(fn) {
 			continue
 		}
-		for _, h := range loopHeaders(fn) {
+		if len(fn.Params) > 0 {
+			var ps []string
+			for _, q := range fn.Params {
+				ps = append(ps, q.Name()+":"+kindOfType(q.Type()))
+			}
+			out["params:"+relName(fn.String())] = ps
+		}
+		for _, h := range fn.Blocks {
 			var names []string
 			for _, phi := range headerPhis(h) {
 				names = append(names, phi.Comment+":"+kindOfType(phi.Type()))
